@@ -215,11 +215,36 @@ fn run_row<const H: usize>(row: &Value, dir: &Path, idx: usize, quick: bool, eva
     let mut rng = rand::rngs::StdRng::seed_from_u64(hcommon::seed() ^ idx as u64);
     let file = std::fs::OpenOptions::new().read(true).write(true).open(&path).unwrap();
     // sanity: the untouched image is read back identically by every path
+    // (round trip; a panic or a wrong answer of the code under test is data, not a harness failure)
     {
-        let mut rd = Reader::<H>::open(&path, None).unwrap();
-        let rec = rd.read_record(img.vo as u64, ReadHint::Random).expect("intact victim must be readable");
-        assert_eq!(rec.data.as_ref(), data_for(2, dlen, comp).as_slice());
-        assert_eq!(rec.compressed_data.is_some(), comp && dlen >= 128);
+        let sane = catch(std::panic::AssertUnwindSafe(|| -> Option<String> {
+            let mut rd = match Reader::<H>::open(&path, None) {
+                Ok(r) => r,
+                Err(e) => return Some(format!("opening the intact segment failed: {e}")),
+            };
+            for hint in [ReadHint::Random, ReadHint::Sequential] {
+                match rd.read_record(img.vo as u64, hint) {
+                    Ok(rec) => {
+                        if rec.data.as_ref() != data_for(2, dlen, comp).as_slice() {
+                            return Some(format!("intact record read back with different data ({hint:?})"));
+                        }
+                    }
+                    Err(e) => return Some(format!("intact record not readable ({hint:?}): {e}")),
+                }
+            }
+            None
+        }));
+        let problem = match sane {
+            Ok(None) => None,
+            Ok(Some(p)) => Some(p),
+            Err(p) => Some(format!("panic: {p} ({})", hcommon::last_panic())),
+        };
+        if let Some(p) = problem {
+            bad.lock().unwrap().push(json!({"class": row, "H": H, "data_len": dlen, "victim_offset": img.vo,
+                "victim_len": img.vlen, "fault": "none (round trip of the intact record)", "problem": p}));
+            let _ = std::fs::remove_file(&path);
+            return;
+        }
     }
     let cs = cases(row, &img, H, quick, &mut rng);
     let mut local_bad = 0;
@@ -279,7 +304,9 @@ pub fn run(rep: &mut Report, table: &str) {
     let mut seen = std::collections::BTreeSet::new();
     for b in bad.into_inner().unwrap() {
         let problem = b["problem"].as_str().unwrap();
-        let what = if problem.starts_with("panic") {
+        let what = if b["fault"].as_str().unwrap_or("").starts_with("none") {
+            "roundtrip"
+        } else if problem.starts_with("panic") {
             "panic"
         } else if problem.contains("resumes") || problem.contains("reopening") {
             "reopen"
